@@ -145,7 +145,7 @@ def logical_size(ctx):
     ctx.floor('Tilemap constructions', len(aggs), 1)
     for bb, st, t in aggs:
         f = dict(t[3])
-        ls = f.get('logical_size', ('unknown',))
+        ls = expand(f.get('logical_size', ('unknown',)), fx, 3)      # see through crate-local helpers such as a ceil_div function
         ok = ls[0] == 'tuple' and len(ls[1]) == 2
         d = [show(ls)[:100]]
         if ok:
@@ -154,8 +154,15 @@ def logical_size(ctx):
             ok = r0[0] and r1[0]
             d = [r0[1], r1[1]]
             # both quotients use the tileset that is stored in the handle
-            tsets = {x for e in ls[1] for x in walk(P.canon(e)) if isinstance(x, tuple) and x and x[0] == 'call' and x[1] == TS + 'TilesetsById::get'}
-            ok = ok and tsets == {P.canon(f.get('tileset'))}
+            raw = f.get('logical_size')
+            tsets = {x for e in (raw[1] if raw[0] == 'tuple' else ()) for x in walk(P.canon(e))
+                     if isinstance(x, tuple) and x and x[0] == 'call' and x[1] == TS + 'TilesetsById::get'}
+            same = tsets == {P.canon(f.get('tileset'))}
+            if not same:
+                # after inlining helpers the lookup itself may be inlined: compare the inlined forms
+                tse = P.canon(expand(f.get('tileset'), fx, 3))
+                same = all(any(x == tse for x in walk(P.canon(e))) for e in ls[1])
+            ok = ok and same
         ctx.inst('Q2', 'AsepriteFile::tilemap#size', ok, 'logical size = (%s); must be (ceil(width / tile width), ceil(height / tile height)) of the handle\'s tileset'
                  % ', '.join(d), st.get('span'), key=b.name + '|Q2|size')
         tsv = f.get('tileset', ('unknown',))
